@@ -561,7 +561,7 @@ func (s *Sym) evCall(env *Env, x ECall) TV {
 		return TV{T: contOf(a[0]), S: "Str"}
 	case "bytes":
 		a := argv()
-		return TV{T: "(mk-bytes false " + a[0].T + ")", S: "Bytes"}
+		return TV{T: "(mk-bytes false " + a[0].T + ")", S: "Bytes", GT: types.NewSlice(types.Typ[types.Byte])}
 	case "isnil":
 		a := argv()
 		return TV{T: s.isNilTerm(a[0]), S: "Bool"}
@@ -629,6 +629,14 @@ func (s *Sym) evCall(env *Env, x ECall) TV {
 			bad("isfresh needs an old state")
 		}
 		return TV{T: fmt.Sprintf("(and (> %s %s) (<= %s %s))", a[0].T, s.top(env.old), a[0].T, s.top(env.st)), S: "Bool"}
+	case "boxed": // the interface value MakeInterface builds from a typed value
+		a := argv()
+		if a[0].GT == nil {
+			bad("boxed() needs a value with a Go type")
+		}
+		fr := s.newFrame(s.Top, 0)
+		payload := fr.box(a[0], env.st)
+		return TV{T: fmt.Sprintf("(mk-iface %s %s)", s.typeID(a[0].GT), payload), S: "Iface"}
 	case "ifacePtr": // payload reference of an interface value
 		a := argv()
 		return TV{T: "(ival " + a[0].T + ")", S: "Int"}
@@ -698,6 +706,17 @@ func (s *Sym) evMethodCall(env *Env, x ECall) TV {
 				if i := strings.Index(name, "#"); i >= 0 {
 					idx, _ = strconv.Atoi(name[i+1:])
 					name = name[:i]
+				}
+				// resolve the qualifier through the imports of the contract's package
+				if env.pkg != nil {
+					for _, imp := range env.pkg.Imports() {
+						if imp.Name() == id.Name || lastSeg(imp.Path()) == id.Name {
+							k := imp.Path() + "." + strings.TrimPrefix(name, id.Name+".")
+							if fc := s.P.contractFor(k); fc != nil && fc.Pure {
+								return s.applyPure(k, idx, args)
+							}
+						}
+					}
 				}
 				if fc, key := s.P.findPure(name, env.pkg); fc != nil {
 					return s.applyPure(key, idx, args)
@@ -852,14 +871,14 @@ func (s *Sym) defineSpec(sf *SpecFunc) []string {
 	if b.S == "Int" && ret == "Real" {
 		b = TV{T: "(to_real " + b.T + ")", S: "Real"}
 	}
-	if b.S != ret {
+	if b.S != ret && !sf.FootOnly {
 		s.fail("spec function %s: body has sort %s, declared %s", sf.Name, b.S, ret)
 	}
 	kw := "define-fun"
 	if recursive {
 		kw = "define-fun-rec"
 	}
-	if sf.Opaque && !s.revealed[sf.Name] {
+	if sf.FootOnly || (sf.Opaque && !s.revealed[sf.Name]) {
 		// opaque here: an uninterpreted function of the same signature
 		var sorts []string
 		for _, m := range foot {
